@@ -284,6 +284,26 @@ fn focus_code(sig: &str) -> u8 {
     (h % 250) as u8 + 1
 }
 
+/// signatures of C49 findings that are still open (status "known") in /verif/known_findings.json
+fn open_classes() -> &'static std::collections::HashSet<String> {
+    static OPEN: std::sync::OnceLock<std::collections::HashSet<String>> = std::sync::OnceLock::new();
+    OPEN.get_or_init(|| {
+        let mut set = std::collections::HashSet::new();
+        if let Ok(txt) = std::fs::read_to_string("/verif/known_findings.json") {
+            if let Ok(v) = serde_json::from_str::<serde_json::Value>(&txt) {
+                for f in v["findings"].as_array().cloned().unwrap_or_default() {
+                    if f["property"] == "C49" && f["status"] == "known" {
+                        if let Some(s) = f["signature"].as_str() {
+                            set.insert(s.to_string());
+                        }
+                    }
+                }
+            }
+        }
+        set
+    })
+}
+
 fn show_set(s: &BTreeSet<Record>) -> String {
     s.iter()
         .map(|(k, p, d)| format!("{k} {}{}", show(p), if *d { "/" } else { "" }))
@@ -587,7 +607,7 @@ fn run_world(t: &mut Tape, c: &mut Case, strict: bool) {
                 } else {
                     "gix-status-error"
                 };
-                if sig != "gix-status-error" && !strict {
+                if sig != "gix-status-error" && !strict && open_classes().contains(sig) {
                     c.label("world-in-known-deviation-class");
                     return;
                 }
@@ -727,7 +747,11 @@ fn run_world(t: &mut Tape, c: &mut Case, strict: bool) {
                 "only git: [{all_git}]; only gitoxide: [{all_gix}]; (git: [{}]) case {spec:?}",
                 show_set(&want)
             );
-            if only_git.is_empty() && only_gix.is_empty() {
+            // classes that have been fixed in /repo since are violations again
+            let open = open_classes();
+            if let Some(fixed) = classes.iter().find(|k| !open.contains(**k)) {
+                c.fail_sig(fixed, msg);
+            } else if only_git.is_empty() && only_gix.is_empty() {
                 c.label("world-in-known-deviation-class");
                 if strict {
                     // which class is reported, when several apply, is selected by the byte that follows the case
@@ -763,7 +787,7 @@ pub fn main() {
     ck.assume(&format!("oracle: {} `--no-optional-locks status --porcelain=v2 -z`; only the worktree column and ?/! records are compared (the index equals HEAD, or HEAD is unborn in 1 of 18 cases)", Git::version()));
     ck.assume("mapping of modes: showUntrackedFiles=normal <-> UntrackedFiles::Collapsed, all <-> Files, no <-> None; --ignored=traditional (with normal) <-> emit_ignored(CollapseDirectory) + emit_collapsed(OnStatusMismatch), --ignored=matching (with all) <-> emit_ignored(Matching); submodules, rewrites (rename tracking), sparse checkouts, core.ignoreCase and precomposeUnicode are not exercised");
 
-    ck.sub("world", SubCfg::new(400, 10_000).max_len(700).max_shrink(12), |t, c| run_world(t, c, false));
+    ck.sub("world", SubCfg::new(160, 10_000).max_len(700).max_shrink(12), |t, c| run_world(t, c, false));
     // replays of the pinned known findings (plus two random worlds) with known classes reported
     ck.sub("pinned", SubCfg::new(2, 8).max_len(700).max_shrink(6), |t, c| run_world(t, c, true));
 
